@@ -3,6 +3,23 @@ import os, json, subprocess
 
 
 def build_custom(name, v, out, log, REPO, ROOT, sh, tree_hash, repo_hash):
+    if name == "opts-fuzz":
+        stamp = tree_hash([os.path.join(ROOT, "harness", "opts.c"), os.path.join(ROOT, "harness", "opts_fuzz.c"), os.path.join(ROOT, "harness", "opts_fuzz_driver.py"), os.path.join(ROOT, "engine")], repo_hash() + json.dumps(v, sort_keys=True))
+        stamp_file = os.path.join(out, "stamp"); exe = os.path.join(out, "opts-fuzz")
+        if os.path.exists(stamp_file) and open(stamp_file).read() == stamp and os.path.exists(exe):
+            return exe, stamp
+        ren = ["-Dmmap=vf_mmap", "-Dmunmap=vf_munmap", "-Dmprotect=vf_mprotect", "-Dmadvise=vf_madvise", "-Dclock_gettime=vf_clock_gettime", "-Dsyscall=vf_syscall"]
+        steps = [["gcc", "-O2", "-c", os.path.join(ROOT, "engine", "vf_shim.c"), "-o", os.path.join(out, "shim.o")],
+                 ["clang", "-O1", "-g", "-w", "-DNDEBUG", "-DMI_STAT=2", "-fsanitize=fuzzer,address,bounds", "-fno-sanitize-recover=bounds", "-fno-omit-frame-pointer"] + ren +
+                 ["-I" + os.path.join(REPO, "include"), "-I" + os.path.join(REPO, "src"), "-I" + os.path.join(ROOT, "harness"), "-DVF_REPO_STATIC_C=\"" + os.path.join(REPO, "src", "static.c") + "\"",
+                  os.path.join(ROOT, "harness", "opts_fuzz.c"), os.path.join(out, "shim.o"), "-o", os.path.join(out, "opts_fuzz_bin"), "-lpthread"]]
+        for s in steps:
+            r = sh(s)
+            if r.returncode != 0:
+                log("BUILD FAILED (opts-fuzz): %s\n%s" % (" ".join(s), r.stdout[-3000:])); return None, None
+        open(exe, "w").write("#!/bin/sh\nexec python3 %s %s \"$@\"\n" % (os.path.join(ROOT, "harness", "opts_fuzz_driver.py"), os.path.join(out, "opts_fuzz_bin")))
+        os.chmod(exe, 0o755); open(stamp_file, "w").write(stamp)
+        return exe, stamp
     if name != "ovr":
         log("unknown custom build " + name); return None, None
     stamp = tree_hash([os.path.join(ROOT, "harness", "ovr")], repo_hash() + json.dumps(v, sort_keys=True))
